@@ -546,7 +546,11 @@ static double permille(const Plan &p, const char *k, double dflt) {
     return it == p.cfg.end() ? dflt : (double)it->second / 1000000.0;
 }
 
+static void (*g_warmup)(void) = nullptr;
+void set_thread_warmup(void (*fn)(void)) { g_warmup = fn; }
+
 void init_process(int pool_threads) {
+    if (g_warmup) g_warmup();
     g_nslots = pool_threads + 1;
     g_slots = new Slot[g_nslots];
     g_slots[0].os_handle = pthread_self();
@@ -559,6 +563,7 @@ void init_process(int pool_threads) {
         int rc = __real_pthread_create(&s->os_handle, &at, [](void *a) -> void * {
             Slot *s = (Slot *)a;
             tl_slot = s;
+            if (g_warmup) g_warmup();
             for (;;) {
                 wait_for_baton(s);
                 SimThread *t = &G.th[s->bound];
